@@ -90,6 +90,14 @@ def run(tier, seed):
                             B = f'{anc_.name} {el_.name}'
                             if rnd.random() < 0.5:
                                 A, B = B, A
+                if it == 5 and len(pools['names']) >= 2:
+                    # an alternative whose rightmost compound is nothing but a nested list (or an alias): the combinator in front of it counts
+                    n1, n2 = [sv.escape(n_) for n_ in rnd.sample(pools['names'], 2)]
+                    inner = rnd.choice([f':is({n2}, {sv.escape(rnd.choice(pools["names"]))})', ':--cust', f':where({n2})', f':is({n2})', ':--c2',
+                                        f':not({n2})', f':matches({n2}, .x)'])
+                    A = f'{n1}{rnd.choice([" > ", " ", " ~ ", " + "])}{inner}'
+                    if rnd.random() < 0.4:
+                        A = f'{sv.escape(rnd.choice(pools["names"]))} {A}'
                 if it == 1 and len(pools['names']) >= 2:
                     # two plain type selectors for names that occur in the tree, as spelled there or in another ASCII case
                     A, B = [sv.escape(rnd.choice([n_, n_, n_.lower(), n_.upper()])) for n_ in rnd.sample(pools['names'], 2)]
